@@ -36,8 +36,15 @@ pub fn build_pass_1(
             SegmentType::Eeprom => eeprom_offset,
         };
 
+        // Last address (exclusive) of memory for segment
+        let limit = match segment.t {
+            SegmentType::Code => device.flash_size,
+            SegmentType::Data => device.ram_start.saturating_add(device.ram_size),
+            SegmentType::Eeprom => device.eeprom_size,
+        };
+
         let (current_end_offset, current_offset, items) =
-            pass_1_internal(&segment, offset, common_context)?;
+            pass_1_internal(&segment, offset, limit, common_context)?;
         segments.push(Segment {
             items,
             t: segment.t,
@@ -66,9 +73,22 @@ pub fn build_pass_1(
     })
 }
 
+/// Next address after `count` elements of `unit` address units each, none if it is out of memory (`limit`)
+fn next_address(address: u32, count: usize, unit: u64, limit: u32) -> Option<u32> {
+    let size = match (count as u64).checked_mul(unit) {
+        Some(size) => size,
+        None => return None,
+    };
+    match (address as u64).checked_add(size) {
+        Some(end) if end <= limit as u64 => Some(end as u32),
+        _ => None,
+    }
+}
+
 fn pass_1_internal(
     segment: &Segment,
     address: u32,
+    limit: u32,
     common_context: &CommonContext,
 ) -> Result<(u32, u32, Vec<(CodePoint, Item)>), Error> {
     let current_offset = if segment.address == 0 {
@@ -79,6 +99,9 @@ fn pass_1_internal(
         }
         segment.address
     };
+    if current_offset > limit {
+        bail!("{} memory size is exceeded", segment.t);
+    }
 
     let mut out_items = vec![];
     let mut cur_address = current_offset;
@@ -93,7 +116,15 @@ fn pass_1_internal(
             }
             Item::Instruction(op, _) => match segment.t {
                 SegmentType::Code => {
-                    cur_address += op.info(common_context).len;
+                    cur_address = match next_address(
+                        cur_address,
+                        op.info(common_context).len as usize,
+                        1,
+                        limit,
+                    ) {
+                        Some(address) => address,
+                        None => bail!("{} memory size is exceeded, {}", segment.t, line),
+                    };
                     out_items.push((*line, item.clone()));
                 }
                 _ => bail!(
@@ -109,18 +140,24 @@ fn pass_1_internal(
                 DataDefine::Db => {
                     let mut items = items.clone();
 
-                    cur_address += match segment.t {
+                    let next = match segment.t {
                         SegmentType::Code => {
-                            (if items.actual_len() % 2 == 1 {
+                            let words = if items.actual_len() % 2 == 1 {
                                 items.push(Operand::E(Expr::Const(0x0)));
                                 items.actual_len()
                             } else {
                                 items.actual_len()
-                            }) as u32
-                                / 2
+                            } / 2;
+                            next_address(cur_address, words, 1, limit)
                         }
-                        SegmentType::Eeprom => items.actual_len() as u32,
+                        SegmentType::Eeprom => {
+                            next_address(cur_address, items.actual_len(), 1, limit)
+                        }
                         _ => bail!(".db are not allowed in data segment, {}", line),
+                    };
+                    cur_address = match next {
+                        Some(address) => address,
+                        None => bail!("{} memory size is exceeded, {}", segment.t, line),
                     };
 
                     out_items.push((*line, Item::Data(DataDefine::Db, items)));
@@ -132,10 +169,18 @@ fn pass_1_internal(
                         DataDefine::Dq => 8,
                         _ => 0,
                     };
-                    cur_address += match segment.t {
-                        SegmentType::Code => items.len() as u32 * (item_size / 2),
-                        SegmentType::Eeprom => items.len() as u32 * item_size,
+                    let next = match segment.t {
+                        SegmentType::Code => {
+                            next_address(cur_address, items.len(), item_size / 2, limit)
+                        }
+                        SegmentType::Eeprom => {
+                            next_address(cur_address, items.len(), item_size, limit)
+                        }
                         _ => bail!(".dw are not allowed in data segment, {}", line),
+                    };
+                    cur_address = match next {
+                        Some(address) => address,
+                        None => bail!("{} memory size is exceeded, {}", segment.t, line),
                     };
 
                     out_items.push((*line, item.clone()));
@@ -143,7 +188,13 @@ fn pass_1_internal(
             },
             Item::ReserveData(size) => match segment.t {
                 SegmentType::Data | SegmentType::Eeprom => {
-                    cur_address += *size as u32;
+                    if *size < 0 {
+                        bail!("size of .byte must not be negative, {}", line);
+                    }
+                    cur_address = match next_address(cur_address, 1, *size as u64, limit) {
+                        Some(address) => address,
+                        None => bail!("{} memory size is exceeded, {}", segment.t, line),
+                    };
                     if segment.t == SegmentType::Eeprom {
                         out_items.push((*line, item.clone()));
                     }
